@@ -9,6 +9,29 @@ PROPS = ["C04", "C16", "C18"]
 TRUSTED = ["verus 0.2026.09.13 + z3", "vstd specifications of Vec / slice iterators (A-vstd)"]
 
 
+APPEND_SPECS = {
+    "new": ("pub fn new() -> (r: AssemblyCode)\n ensures r.code@.len() == 0, //@ C04:new-empty\n", "fn new() -> AssemblyCode"),
+    "append_asm": ("pub fn append_asm(&mut self, inst: AsmInstruction)\n ensures final(self).code@ == old(self).code@.push(AsmLine::Instruction(inst)), //@ C04,C18:append-asm\n", "fn append_asm(&mut self, inst: AsmInstruction)"),
+    "append_inline": ("pub fn append_inline(&mut self, s: String, size: Option<u32>)\n ensures final(self).code@ == old(self).code@.push(AsmLine::Inline(s, match size { Some(n) => n, None => 3u32 })), //@ C04,C18:inline-default\n", "fn append_inline(&mut self, s: String, size: Option<u32>)"),
+    "append_label": ("pub fn append_label(&mut self, s: String)\n ensures final(self).code@ == old(self).code@.push(AsmLine::Label(s)), //@ C04:append-label\n", "fn append_label(&mut self, s: String)"),
+    "append_comment": ("pub fn append_comment(&mut self, s: String)\n ensures final(self).code@ == old(self).code@.push(AsmLine::Comment(s)), //@ C04:append-comment\n", "fn append_comment(&mut self, s: String)"),
+    "append_dummy": ("pub fn append_dummy(&mut self) -> (r: usize)\n ensures final(self).code@ == old(self).code@.push(AsmLine::Dummy), r == old(self).code@.len(), //@ C04:append-dummy\n", "fn append_dummy(&mut self) -> usize"),
+}
+
+
+def append_fns(f, cuts, names=None):
+    """The append_* constructors of AssemblyCode with their contracts (re-verified wherever included)."""
+    parts = []
+    for name, (hdr, sig) in APPEND_SPECS.items():
+        if names is not None and name not in names:
+            continue
+        c = f.fn(name, within="AssemblyCode")
+        c.set_header(hdr, expect_sig=sig)
+        cuts.append(c)
+        parts.append(c.text)
+    return parts
+
+
 def build(repo):
     u = Unit(NAME, TOOL, PROPS,
              ["src/assemble.rs: AssemblyCode::size_bytes", "src/assemble.rs: AssemblyCode::append_asm", "src/assemble.rs: AssemblyCode::append_inline",
@@ -31,19 +54,7 @@ def build(repo):
     sz.sub(r"let mut size = 0;", "let mut size: u32 = 0;", "R3-type", expect=(0, 1))
     cuts.append(sz)
     parts = [sz.text]
-    specs = {
-        "new": ("pub fn new() -> (r: AssemblyCode)\n ensures r.code@.len() == 0, //@ C04:new-empty\n", "fn new() -> AssemblyCode"),
-        "append_asm": ("pub fn append_asm(&mut self, inst: AsmInstruction)\n ensures final(self).code@ == old(self).code@.push(AsmLine::Instruction(inst)), //@ C04,C18:append-asm\n", "fn append_asm(&mut self, inst: AsmInstruction)"),
-        "append_inline": ("pub fn append_inline(&mut self, s: String, size: Option<u32>)\n ensures final(self).code@ == old(self).code@.push(AsmLine::Inline(s, match size { Some(n) => n, None => 3u32 })), //@ C04,C18:inline-default\n", "fn append_inline(&mut self, s: String, size: Option<u32>)"),
-        "append_label": ("pub fn append_label(&mut self, s: String)\n ensures final(self).code@ == old(self).code@.push(AsmLine::Label(s)), //@ C04:append-label\n", "fn append_label(&mut self, s: String)"),
-        "append_comment": ("pub fn append_comment(&mut self, s: String)\n ensures final(self).code@ == old(self).code@.push(AsmLine::Comment(s)), //@ C04:append-comment\n", "fn append_comment(&mut self, s: String)"),
-        "append_dummy": ("pub fn append_dummy(&mut self) -> (r: usize)\n ensures final(self).code@ == old(self).code@.push(AsmLine::Dummy), r == old(self).code@.len(), //@ C04:append-dummy\n", "fn append_dummy(&mut self) -> usize"),
-    }
-    for name, (hdr, sig) in specs.items():
-        c = f.fn(name, within="AssemblyCode")
-        c.set_header(hdr, expect_sig=sig)
-        cuts.append(c)
-        parts.append(c.text)
+    parts += append_fns(f, cuts)
     text = common.PRELUDE + common.header_comment(NAME, cuts) + "verus! {\n" + types + common.SUM_SPECS + \
         "impl AssemblyCode {\n" + "\n".join(parts) + "\n}\n" + common.CANARY + "\n} // verus!\n"
     u.text[None] = text
